@@ -12,9 +12,11 @@ import subprocess
 import sys
 import time
 import traceback
+import zlib
 
 VERIF = os.path.dirname(os.path.dirname(os.path.abspath(__file__)))
 REPO = os.environ.get('VERIF_REPO', '/repo')
+OUT = os.environ.get('VERIF_OUT', VERIF)   # evidence/replays of mutant runs go elsewhere
 NPROC = int(os.environ.get('VERIF_PROCS', '0')) or (os.cpu_count() or 4)
 
 sys.dont_write_bytecode = True
@@ -114,7 +116,9 @@ class Bitmap:
         self.buf = bytearray(1 << (bits - 3))
 
     def add(self, key):
-        h = hash(key) & self.mask
+        if not isinstance(key, str):
+            key = repr(key)
+        h = zlib.crc32(key.encode('utf-8', 'surrogatepass')) & self.mask
         self.buf[h >> 3] |= 1 << (h & 7)
 
     def dump(self):
@@ -304,7 +308,7 @@ def finish(res, tier, seed, t0):
         body = dict(v)
         body['property'] = res.prop
         sha = hashlib.sha256(json.dumps(jsonable(body), sort_keys=True).encode()).hexdigest()[:12]
-        path = os.path.join(VERIF, 'replays', res.prop, sha + '.json')
+        path = os.path.join(OUT, 'replays', res.prop, sha + '.json')
         write_json(path, body)
         replay_paths.append(path)
         lines.append(f'VIOLATION property={res.prop} replay={path}')
@@ -319,7 +323,7 @@ def finish(res, tier, seed, t0):
     ev = {'property_id': res.prop, 'tier': tier, 'seed': seed, 'level': res.level, 'coverage': cov,
           'assumptions': res.assumptions, 'wall_s': round(time.time() - t0, 2),
           'violations': len(unknown)}
-    evpath = os.path.join(VERIF, 'evidence', res.prop + '.json')
+    evpath = os.path.join(OUT, 'evidence', res.prop + '.json')
     write_json(evpath, ev)
     bad = validate_evidence(evpath)
     if bad:
